@@ -1,6 +1,6 @@
 // @unit id=v_framed_write props=C12,C01,C04,C08 tier=quick
-// Verus contracts on the REAL bodies of src/codec/framed_write.rs `FramedWrite::flush`, `Encoder::unset_frame`,
-// `Encoder::is_empty`, `Encoder::has_capacity` (extracted on every run): the last stage before the transport.
+// Verus contracts on the REAL bodies of src/codec/framed_write.rs `FramedWrite::flush`, `Encoder::buffer`,
+// `Encoder::unset_frame`, `Encoder::is_empty`, `Encoder::has_capacity` (extracted on every run): the last stage before the transport.
 //
 // C12 / C01 / C04:  whatever was accepted for sending — the encoded bytes in the write buffer, the payload of a parked DATA
 //   frame, the rest of a header block parked as CONTINUATION — reaches the transport EXACTLY ONCE and IN ORDER, for ANY
@@ -61,6 +61,85 @@ pub enum Next { Data(DataF), Continuation(Cont) }
 
 pub enum ControlFlow { Continue, Break }
 
+#[derive(PartialEq, Eq, Structural, Clone, Copy, Debug)]
+pub enum UserError { PayloadTooBig, Other(u8) }
+
+impl CursorBuf {
+    /// Buf::remaining of the cursor
+    #[verifier::external_body]
+    pub fn remaining(&self) -> (r: usize) ensures r == self.rem@.len() { unimplemented!() }
+
+    /// `self.buf.get_mut().put(payload.take(n))`: moves the first min(n, remaining) octets of the payload behind the buffer
+    #[verifier::external_body]
+    pub fn put_from(&mut self, payload: &mut Payload, n: usize)
+        ensures
+            final(self).rem@ + final(payload).rem@ == old(self).rem@ + old(payload).rem@,
+            final(payload).rem@.len() == (if old(payload).rem@.len() >= n { old(payload).rem@.len() - n } else { 0 }),
+    { unimplemented!() }
+}
+impl Payload {
+    #[verifier::external_body]
+    pub fn remaining(&self) -> (r: usize) ensures r == self.rem@.len() { unimplemented!() }
+}
+
+/// frame::Head of a DATA frame (opaque) and its 9 encoded octets for a given payload length
+pub struct HeadM { pub id: u64 }
+pub uninterp spec fn head_bytes(id: u64, len: int) -> Seq<u8>;
+impl HeadM {
+    #[verifier::external_body]
+    pub fn encode(&self, payload_len: usize, dst: &mut CursorBuf)
+        ensures final(dst).rem@ == old(dst).rem@ + head_bytes(self.id, payload_len as int), final(dst).free == old(dst).free,
+            head_bytes(self.id, payload_len as int).len() == 9,       // frame::HEADER_LEN (Kani unit head_roundtrip)
+    { unimplemented!() }
+}
+impl DataF {
+    pub uninterp spec fn id(self) -> u64;
+    #[verifier::external_body]
+    pub fn head(&self) -> (r: HeadM) ensures r.id == self.id() { unimplemented!() }
+    #[verifier::external_body]
+    pub fn payload_mut(&mut self) -> (r: &mut Payload) { unimplemented!() }
+    /// Data::encode_chunk: head and the WHOLE payload go into the buffer (Kani unit data_encode_chunk)
+    #[verifier::external_body]
+    pub fn encode_chunk(&mut self, dst: &mut CursorBuf)
+        ensures final(dst).rem@ == old(dst).rem@ + head_bytes(old(self).id(), old(self).payload.rem@.len() as int) + old(self).payload.rem@,
+            final(self).payload.rem@.len() == 0, final(self).id() == old(self).id(),
+    { unimplemented!() }
+}
+
+/// HEADERS / PUSH_PROMISE frames: `wire` = everything the header block puts on the wire (first frame + CONTINUATIONs)
+pub struct HdrF { pub wire: Ghost<Seq<u8>> }
+/// `let mut buf = limited_write_buf!(self); v.encode(&mut self.hpack, &mut buf)`
+#[verifier::external_body]
+pub fn encode_headers(v: HdrF, buf: &mut CursorBuf) -> (r: Option<Cont>)
+    ensures final(buf).rem@ + (match r { Some(c) => c.bytes@, None => Seq::<u8>::empty() }) == old(buf).rem@ + v.wire@,
+{ unimplemented!() }
+
+/// control frames (SETTINGS, GOAWAY, PING, WINDOW_UPDATE, RST_STREAM): encode appends their wire form (C12 round-trip units)
+pub struct CtlF { pub wire: Ghost<Seq<u8>> }
+impl CtlF {
+    #[verifier::external_body]
+    pub fn encode(&self, dst: &mut CursorBuf)
+        ensures final(dst).rem@ == old(dst).rem@ + self.wire@,
+    { unimplemented!() }
+}
+
+pub enum Frame { Data(DataF), Headers(HdrF), PushPromise(HdrF), Settings(CtlF), GoAway(CtlF), Ping(CtlF), WindowUpdate(CtlF), Priority(CtlF), Reset(CtlF) }
+
+/// the octets a frame owes the wire
+pub open spec fn wire(item: Frame) -> Seq<u8> {
+    match item {
+        Frame::Data(v) => head_bytes(v.id(), v.payload.rem@.len() as int) + v.payload.rem@,
+        Frame::Headers(v) => v.wire@,
+        Frame::PushPromise(v) => v.wire@,
+        Frame::Settings(v) => v.wire@,
+        Frame::GoAway(v) => v.wire@,
+        Frame::Ping(v) => v.wire@,
+        Frame::WindowUpdate(v) => v.wire@,
+        Frame::Priority(v) => v.wire@,
+        Frame::Reset(v) => v.wire@,
+    }
+}
+
 /// the transport
 pub struct Io { pub out: Ghost<Seq<u8>>, pub flushed: Ghost<bool> }
 impl Io {
@@ -110,6 +189,8 @@ pub struct Encoder {
     pub next: Option<Next>,
     pub last_data_frame: Option<DataF>,
     pub min_buffer_capacity: usize,
+    pub max_frame_size: u32,
+    pub chain_threshold: usize,
 }
 
 impl Encoder {
@@ -135,6 +216,47 @@ impl Encoder {
     //@spec     ensures
     //@spec         // C04: nothing else is accepted while a DATA payload or the rest of a header block is parked
     //@spec         r == (self.next is None && self.buf.free >= self.min_buffer_capacity),
+    //@end
+
+    //@extract src/codec/framed_write.rs Encoder::max_frame_size
+    //@ret r
+    //@spec     ensures r == self.max_frame_size as usize,
+    //@end
+
+    // Accepting a frame for sending (C12 / C01 / C04): its wire form is appended BEHIND everything accepted earlier — a DATA
+    // frame as head ++ payload whether the payload is copied into the buffer (small) or parked behind its head (large:
+    // I-chain, the precondition of flush, is established here), a header block as first frame ++ parked CONTINUATIONs —;
+    // a DATA payload above the peer's SETTINGS_MAX_FRAME_SIZE is refused and nothing changes; the real
+    // `assert!(self.has_capacity())` and `unimplemented!()` (PRIORITY is never sent) are obligations under the stated
+    // preconditions.
+    // Listed substitutions: `self.buf.get_mut()` => `&mut self.buf`; `get_ref().remaining()` => `remaining()`;
+    // `.put(v.payload_mut().take(n))` => `put_from(&mut v.payload, n)`; `limited_write_buf!` + `v.encode(&mut self.hpack, &mut
+    // buf)` => `encode_headers(v, &mut self.buf)`.
+    //@extract src/codec/framed_write.rs Encoder::buffer
+    //@subst fn buffer(&mut self, item: Frame<B>) -> Result<(), UserError>=>fn buffer(&mut self, item: Frame) -> Result<(), UserError>
+    //@subst return Err(PayloadTooBig);=>return Err(UserError::PayloadTooBig);
+    //@subst head.encode(len, self.buf.get_mut());=>head.encode(len, &mut self.buf);
+    //@subst if self.buf.get_ref().remaining() < self.chain_threshold {=>if self.buf.remaining() < self.chain_threshold {
+    //@subst self.buf.get_mut().put(v.payload_mut().take(extra_bytes));=>self.buf.put_from(&mut v.payload, extra_bytes);
+    //@subst v.encode_chunk(self.buf.get_mut());=>v.encode_chunk(&mut self.buf);
+    //@subst_re let mut buf = limited_write_buf!\(self\);\s*if let Some\(continuation\) = v\.encode\(&mut self\.hpack, &mut buf\) \{=>if let Some(continuation) = encode_headers(v, &mut self.buf) {
+    //@subst v.encode(self.buf.get_mut());=>v.encode(&mut self.buf);
+    //@subst unimplemented!();=>assert(false);
+    //@ret r
+    //@spec     requires
+    //@spec         // FramedWrite::poll_ready answered Ready (the real assert! on has_capacity): nothing is parked
+    //@spec         old(self).next is None && old(self).buf.free >= old(self).min_buffer_capacity,
+    //@spec         !(item is Priority),          // h2 never sends PRIORITY frames
+    //@spec         // the peer's SETTINGS_MAX_FRAME_SIZE is at least 16384 (RFC 9113 6.5.2; Settings::load), CHAIN_THRESHOLD is 256 or 1024
+    //@spec         old(self).max_frame_size >= 16_384 && 1 <= old(self).chain_threshold <= 1024,
+    //@spec     ensures
+    //@spec         r is Ok ==> final(self).todo() == old(self).todo() + wire(item),
+    //@spec         // I-chain for flush
+    //@spec         final(self).next matches Some(Next::Data(f)) ==> f.payload.rem@.len() > 0,
+    //@spec         // RFC 9113 4.2: a payload above the peer's limit is refused, nothing is buffered
+    //@spec         r is Err ==> r == Err::<(), UserError>(UserError::PayloadTooBig) && (item matches Frame::Data(v) && v.payload.rem@.len() > old(self).max_frame_size)
+    //@spec             && final(self).todo() == old(self).todo() && final(self).next is None,
+    //@spec         (item matches Frame::Data(v) && v.payload.rem@.len() <= old(self).max_frame_size) ==> r is Ok,
     //@end
 
     //@extract src/codec/framed_write.rs Encoder::unset_frame
